@@ -600,3 +600,33 @@ func init() {
 		Edit{"types/types.go", "\t\t\tsp := *res\n", "\t\t\tsp = *res\n"},
 		Edit{"types/types.go", "\tc.FileContractResolutions = slices.Clone(c.FileContractResolutions)\n", "\tc.FileContractResolutions = slices.Clone(c.FileContractResolutions)\n\tvar sp V2StorageProof\n"})
 }
+
+func init() {
+	// ---- refactoring together with a break: the engine extensions must not create blind spots ----
+	v := "consensus/validation.go"
+	mut("C02", "validator chain becomes a loop over a list that omits the siafund validator", true, "use-guard|v2-spent-set:SiafundInputs",
+		Edit{v, "\t} else if err := validateV2Siacoins(ms, txn); err != nil {\n\t\treturn err\n\t} else if err := validateV2Siafunds(ms, txn); err != nil {\n\t\treturn err\n\t} else if err := validateV2FileContracts(ms, txn); err != nil {\n\t\treturn err\n\t} else if err := validateAttestations(ms, txn); err != nil {\n\t\treturn err\n\t} else if err := validateFoundationUpdate(ms, txn); err != nil {\n\t\treturn err\n\t}\n\treturn nil\n}", "\t}\n\tfor _, validate := range v2Validators {\n\t\tif err := validate(ms, txn); err != nil {\n\t\t\treturn err\n\t\t}\n\t}\n\treturn nil\n}\n\nvar v2Validators = []func(*MidState, types.V2Transaction) error{validateV2Siacoins, validateV2FileContracts, validateAttestations, validateFoundationUpdate}"})
+	mut("C02", "(benign) validator chain becomes a loop over the complete list", false, "",
+		Edit{v, "\t} else if err := validateV2Siacoins(ms, txn); err != nil {\n\t\treturn err\n\t} else if err := validateV2Siafunds(ms, txn); err != nil {\n\t\treturn err\n\t} else if err := validateV2FileContracts(ms, txn); err != nil {\n\t\treturn err\n\t} else if err := validateAttestations(ms, txn); err != nil {\n\t\treturn err\n\t} else if err := validateFoundationUpdate(ms, txn); err != nil {\n\t\treturn err\n\t}\n\treturn nil\n}", "\t}\n\tfor _, validate := range v2Validators {\n\t\tif err := validate(ms, txn); err != nil {\n\t\t\treturn err\n\t\t}\n\t}\n\treturn nil\n}\n\nvar v2Validators = []func(*MidState, types.V2Transaction) error{validateV2Siacoins, validateV2Siafunds, validateV2FileContracts, validateAttestations, validateFoundationUpdate}"})
+	mut("C01", "claim payout extracted into a helper that forgets to divide by the siafund count", true, "value-source|v1-claim",
+		Edit{"consensus/application.go", "\t\tclaimPortion := ms.siafundTaxRevenue.Sub(sfe.ClaimStart).Div64(ms.base.SiafundCount()).Mul64(sfe.SiafundOutput.Value)\n", "\t\tclaimPortion := ms.claimPortion(sfe.ClaimStart, sfe.SiafundOutput.Value)\n"},
+		Edit{"consensus/application.go", "// ApplyTransaction applies a transaction to the MidState.\n", "func (ms *MidState) claimPortion(start types.Currency, value uint64) types.Currency {\n\treturn ms.siafundTaxRevenue.Sub(start).Mul64(value)\n}\n\n// ApplyTransaction applies a transaction to the MidState.\n"})
+	mut("C10", "covered-field range check rewritten with ContainsFunc but the negation is lost", true, "sink-discharged|(consensus.State).PartialSigHash:index",
+		Edit{v, "\t\tfor _, i := range indices {\n\t\t\tif i >= uint64(n) {\n\t\t\t\treturn false\n\t\t\t}\n\t\t}\n\t\treturn true", "\t\treturn slices.ContainsFunc(indices, func(i uint64) bool { return i >= uint64(n) })"},
+		Edit{v, "import (\n", "import (\n\t\"slices\"\n"})
+	mut("C10", "(benign) covered-field range check rewritten with ContainsFunc", false, "",
+		Edit{v, "\t\tfor _, i := range indices {\n\t\t\tif i >= uint64(n) {\n\t\t\t\treturn false\n\t\t\t}\n\t\t}\n\t\treturn true", "\t\treturn !slices.ContainsFunc(indices, func(i uint64) bool { return i >= uint64(n) })"},
+		Edit{v, "import (\n", "import (\n\t\"slices\"\n"})
+}
+
+func init() {
+	mut("C16", "proofAccumulator.insertNode gets a value receiver: inserted nodes are lost", true, "receiver-mutation|(rhp/v2.proofAccumulator).insertNode",
+		Edit{"rhp/v2/merkle.go", "func (pa *proofAccumulator) insertNode(h types.Hash256, height int) {", "func (pa proofAccumulator) insertNode(h types.Hash256, height int) {"})
+	mut("C16", "(benign) proofAccumulator.hasNodeAtHeight gets a value receiver", false, "",
+		Edit{"rhp/v2/merkle.go", "func (pa *proofAccumulator) hasNodeAtHeight(height int) bool {", "func (pa proofAccumulator) hasNodeAtHeight(height int) bool {"})
+}
+
+func init() {
+	mut("C02", "spendSiacoinElement gets a value receiver: the spend is recorded on a copy", true, "receiver-mutation|(consensus.MidState).spendSiacoinElement",
+		Edit{"consensus/application.go", "func (ms *MidState) spendSiacoinElement(", "func (ms MidState) spendSiacoinElement("})
+}
